@@ -88,6 +88,14 @@ fn gen_plan(focus: &str, seed: u64, run: u64, tier: Tier) -> Plan {
             timed.push(Ev::Heal { at_ms: at + rng.range(200, 8_000) });
         }
     }
+    if on(&mut rng, 35) {
+        // partial partitions: one or two links down for a long time while every other pair still talks
+        for _ in 0..rng.range(1, 2) {
+            let a = rng.below(nodes);
+            let b = (a + 1 + rng.below(nodes - 1)) % nodes;
+            timed.push(Ev::CutLink { at_ms: rng.range(100, horizon_ms.max(200)), a, b, for_ms: rng.range(2_000, 30_000) });
+        }
+    }
     if on(&mut rng, 40) {
         for _ in 0..rng.range(1, 3) {
             timed.push(Ev::ClockJump { at_ms: rng.range(100, horizon_ms.max(200)), node: rng.below(nodes), ms: rng.range(100, 6_000) });
@@ -255,9 +263,16 @@ fn def(id: &'static str, generate: fn(u64, u64, Tier) -> Value, exec: fn(&Value,
         generate,
         exec,
         steps: "/events",
-        runs: |t| match t {
-            Tier::Quick => 30_000,
-            Tier::Thorough => 400_000,
+        runs: if id == "C30" {
+            |t| match t {
+                Tier::Quick => 30_000,
+                Tier::Thorough => 400_000,
+            }
+        } else {
+            |t| match t {
+                Tier::Quick => 50_000,
+                Tier::Thorough => 400_000,
+            }
         },
         wall_cap_s: |t| match t {
             Tier::Quick => 120,
